@@ -126,6 +126,37 @@ def _uprop(name, value):
 
 
 # scaler 0 and 1 come from the DAQmx raw data; scale 2 = 2*scaler1 + 1 is the channel's output
+def f64hex(values):
+    import struct
+    return [struct.pack('<d', v).hex() for v in values]
+
+
+def thermocouple_props(i, type_code=10073, direction=0, src=0xFFFFFFFF):
+    pre = 'NI_Scale[%d]_' % i
+    return [_sprop(pre + 'Scale_Type', 'Thermocouple'), _uprop(pre + 'Thermocouple_Thermocouple_Type', type_code),
+            _uprop(pre + 'Thermocouple_Scaling_Direction', direction), _uprop(pre + 'Thermocouple_Input_Source', src)]
+
+
+def rtd_props(i, src=0xFFFFFFFF):
+    pre = 'NI_Scale[%d]_' % i
+    return [_sprop(pre + 'Scale_Type', 'RTD'), _dprop(pre + 'RTD_Current_Excitation', 1e-3),
+            _dprop(pre + 'RTD_R0_Nominal_Resistance', 100.0), _dprop(pre + 'RTD_A', 3.9083e-3), _dprop(pre + 'RTD_B', -5.775e-7),
+            _dprop(pre + 'RTD_C', -4.183e-12), _dprop(pre + 'RTD_Lead_Wire_Resistance', 0.0),
+            _uprop(pre + 'RTD_Resistance_Configuration', 2), _uprop(pre + 'RTD_Input_Source', src)]
+
+
+def linear_props(i, slope, intercept, src=0xFFFFFFFF):
+    pre = 'NI_Scale[%d]_' % i
+    return [_sprop(pre + 'Scale_Type', 'Linear'), _dprop(pre + 'Linear_Slope', slope), _dprop(pre + 'Linear_Y_Intercept', intercept),
+            _uprop(pre + 'Linear_Input_Source', src)]
+
+
+def add_props(i, left, right):
+    pre = 'NI_Scale[%d]_' % i
+    return [_sprop(pre + 'Scale_Type', 'Add'), _uprop(pre + 'Add_Left_Operand_Input_Source', left),
+            _uprop(pre + 'Add_Right_Operand_Input_Source', right)]
+
+
 DAQMX_SCALE_PROPS = [
     _uprop('NI_Number_Of_Scales', 3),
     _sprop('NI_Scale[2]_Scale_Type', 'Linear'),
